@@ -20,6 +20,8 @@ import (
 	"net"
 	"os"
 	"sort"
+	"strconv"
+	"strings"
 	"sync"
 	"sync/atomic"
 	"time"
@@ -460,27 +462,47 @@ type scen struct {
 
 var distKinds = []string{"disconnect_a", "disconnect_b", "cut", "restart_a", "restart_b", "mdns_both", "pending_cut", "pending_disconnect"}
 
+// compound disturbances around the 500 ms window of a graceful close (the close announce is
+// sent, the connection is closed and reported 500 ms later): the other hub disconnects too,
+// 0/50/150/400 ms later, in both orders; the transport is cut 50-400 ms after a DisconnectSKI;
+// a DisconnectSKI follows a cut.  name:first:gap_ms
+var windowKinds = []string{
+	"disc_both:a:0", "disc_both:b:0", "disc_both:a:50", "disc_both:b:50",
+	"disc_both:a:150", "disc_both:b:150", "disc_both:a:400", "disc_both:b:400",
+	"disc_cut:a:50", "disc_cut:b:150", "disc_cut:a:250", "disc_cut:b:400",
+	"cut_disc:a:0", "cut_disc:b:50",
+}
+
+func isWindow(d string) bool { return strings.Contains(d, ":") }
+
 func plan(r *vh.Rng, n int) []scen {
 	var s []scen
 	gaps := []int{0, 0, 0, 30, 300, 1500}
+	singles := 12 + 2*len(distKinds)
+	windows := singles + len(windowKinds)
+	all := append(append([]string(nil), distKinds...), windowKinds...)
 	for i := 0; i < n; i++ {
 		sc := scen{id: i, aLarger: i%2 == 0, gapMs: gaps[(i/2)%len(gaps)], lateReg: (i/2)%2 == 0, sub: r.Fork()}
 		var k int
 		switch {
 		case i < 12:
 			k = 0
-		case i < 12+2*len(distKinds):
+		case i < windows:
 			k = 1
 		default:
 			k = 1 + r.Intn(3)
 		}
 		for j := 0; j < k; j++ {
-			d := vh.Pick(r, distKinds)
-			if i >= 12 && i < 12+2*len(distKinds) {
+			d := vh.Pick(r, all)
+			if i >= 12 && i < singles {
 				d = distKinds[(i-12)/2]
+			} else if i >= singles && i < windows {
+				d = windowKinds[i-singles]
+				// the larger SKI on either side of every window scenario over two seeds' worth
+				sc.aLarger = (i-singles)/2%2 == 0 != (i%2 == 0)
 			}
 			sc.dist = append(sc.dist, d)
-			sc.waitFirst = append(sc.waitFirst, d == "pending_cut" || d == "pending_disconnect" || r.Chance(60))
+			sc.waitFirst = append(sc.waitFirst, d == "pending_cut" || d == "pending_disconnect" || isWindow(d) || r.Chance(60))
 			sc.delays = append(sc.delays, r.Intn(400))
 		}
 		s = append(s, sc)
@@ -585,6 +607,40 @@ func runScenario(sc scen) (res result) {
 			}
 		} else {
 			time.Sleep(time.Duration(sc.delays[i]) * time.Millisecond)
+		}
+		if isWindow(d) {
+			parts := strings.Split(d, ":")
+			first, second := a, b
+			if parts[1] == "b" {
+				first, second = b, a
+			}
+			gap, _ := strconv.Atoi(parts[2])
+			pause := func() {
+				if gap > 0 {
+					time.Sleep(time.Duration(gap) * time.Millisecond)
+				}
+			}
+			switch parts[0] {
+			case "disc_both":
+				if gap == 0 {
+					both(func() { first.hub.DisconnectSKI(second.ski, "verif") }, func() { second.hub.DisconnectSKI(first.ski, "verif") })
+				} else {
+					first.hub.DisconnectSKI(second.ski, "verif")
+					pause()
+					second.hub.DisconnectSKI(first.ski, "verif")
+				}
+			case "disc_cut":
+				first.hub.DisconnectSKI(second.ski, "verif")
+				pause()
+				a.px.cutAll()
+				b.px.cutAll()
+			case "cut_disc":
+				a.px.cutAll()
+				b.px.cutAll()
+				pause()
+				first.hub.DisconnectSKI(second.ski, "verif")
+			}
+			continue
 		}
 		switch d {
 		case "disconnect_a":
@@ -691,7 +747,7 @@ func main() {
 		sort.Strings(kinds)
 		kind := "plain"
 		if len(sc.dist) > 0 {
-			kind = sc.dist[len(sc.dist)-1]
+			kind = strings.SplitN(sc.dist[len(sc.dist)-1], ":", 2)[0]
 		}
 		if !res.q.good() {
 			bad++
